@@ -427,7 +427,10 @@ class LabelledPointUndirectedGraph(PointUndirectedGraph):
         # Make it easier to use by accepting a single string as well as a list
         if isinstance(labels, str):
             labels = [labels]
-        labels_to_keep = list(set(self.labels).difference(labels))
+        # Keep the remaining labels in their original (semantic) order. A set
+        # difference would order them by string hash, which changes from one
+        # interpreter run to the next.
+        labels_to_keep = [l for l in self.labels if l not in labels]
         return self._new_group_with_only_labels(labels_to_keep)
 
     def _verify_all_labels_masked(self):
